@@ -33,6 +33,10 @@ DIRTY = [
     ("throw-caught", "try {[2, call {throw 1}, 3]; 4} catch {5}"),
     ("throw-in-loop", "try {{[2, call {throw _x}, 3]} forEach [1, 2]; 4} catch {_exception}"),
     ("error-caught", '{[2, call {1 + "a"}, 3]; 4} except__ {5}'),
+    ("error-caught-direct", '{5 + (1 + "a"); 4} except__ {gE = 1}'),
+    ("error-caught-direct-array", '{[7, 8, 1 + "a"]; 4} except__ {}'),
+    ("throw-direct", "try {5 + (throw 1); 4} catch {gE = 1}"),
+    ("throw-direct-array", "try {[7, 8, throw 1]; 4} catch {}"),
     ("error-caught-deep", '{[2, call {[6, call {1 + "a"}, 7]}, 3]; 4} except__ {5}'),
     ("while", "gW = 0; while {gW < 3} do {[gW, gW]; gW = gW + 1}"),
     ("while-value", "gW = 0; while {gW < 2} do {gW = gW + 1; gW}"),
